@@ -367,13 +367,16 @@ func ZZ_C15_assertion_claims() {
 				sp.aud = claim{kind: "list", l: []interface{}{}}
 			}
 		case 4:
-			switch zz.Choice(tag+".exp", 3) {
+			switch zz.Choice(tag+".exp", 4) {
 			case 0:
 				sp.exp = claim{kind: "absent"}
 			case 1:
 				sp.exp = claim{kind: "str", s: "tomorrow"}
 			case 2:
 				sp.exp = claim{kind: "bool"}
+			case 3:
+				// a numeric exp at or just after the epoch (0 is what generic JWT libraries read as "not set")
+				sp.exp = claim{kind: "num", n: zz.Int(tag+".exp.epoch", 0, 2)}
 			}
 		case 5:
 			switch zz.Choice(tag+".jti", 3) {
